@@ -216,7 +216,9 @@ class DriverRules:
                     continue
                 nfail += 1
                 ev_ = accesses(s)
-                tagw = [e for e in ev_ if e[0] == 'W' and e[1] == 'out' and e[2] == C(10) and e[4][0] != 'zero']
+                def _zeros(kind):
+                    return kind[0] == 'zero' or (kind[0] == 'const' and (kind[1] == 0 or (isinstance(kind[1], tuple) and not any(kind[1]))))
+                tagw = [e for e in ev_ if e[0] == 'W' and e[1] == 'out' and e[2] == C(10) and not _zeros(e[4])]
                 for e in tagw:
                     rec.ob('R13.e', 'R13.e@%s::no-tag-on-a-failing-run' % fkey(f), False, e[5],
                            'T=%d: execute_encrypt returns %s on a path that has written a tag at offset 10: the unfinished file verifies' % (T, show(v)),
